@@ -32,14 +32,14 @@ CHECKS = {
             "CFG/dominance and constant-agreement rules on the tag-dispatch loop of every generated decoder",
             "For every generated decoder (55 structs, 122 tagged rows): one dispatch switch in one loop, per-arm constants agree "
             "(duplicate set, DuplicateTag error, required-set removal, expected tag), required set == mandatory rows, Ok only "
-            "under is_empty(required), MissingRequiredTags derives from the whole set, unknown-tag arm inert and leaving the loop. "
+            "under is_empty(required), MissingRequiredTags derives from the whole set, unknown-tag arm inert and leaving the loop. What a nested field did not read comes back to the loop as remainder (framing clauses shared with C14-a/b). "
             "Holds for all inputs and all permutations because it is a property of the flow graph.",
             TB),
     "C15": ("proof", "5.15",
             "decision-tree extraction: symbolic path enumeration over the two header bytes of each zvt_parse body",
             "For each of the 17 reply enums the parser's decision tree partitions all 65,536 control fields by construction; "
             "every variant-producing leaf is exactly the single point (CLASS, INSTR) of its payload type, decodes the whole "
-            "input with that type's own decoder and wraps its result; everything else and every short input is Err; table == spec; no panic site in the parsers or the helpers they call.",
+            "input with that type's own decoder and wraps its result; everything else and every short input is Err; table == spec; no panic site in the parsers or the helpers they call. Per command, the reply set (control fields) of the enum its sequence parses equals the set the specification lists for that command, whatever the enum is called.",
             "Complete for the property's quantifier (control fields); body contents are delegated to the payload decoder (C02/C03). " + TB),
     "C05": ("model_checking", "5.5",
             "event-graph projection of coroutine MIR + protocol-monitor product construction over all paths",
@@ -79,14 +79,14 @@ CHECKS = {
     "C20": ("other", "5.20",
             "abort-arm region analysis: return classification and provenance of the error from the packet's result code",
             "For all nine client functions the Abort arm of the reply match never returns Ok, never continues the loop, and its error is "
-            "built from the packet's `error` byte; the three documented translations sit on the edge of exactly their code; success is only returned after a reply that ends the exchange (or the end of the stream), never from the arm of an intermediate reply; nested client operations propagate. Covers all 256 "
+            "built from the packet's `error` byte; the three documented translations sit on the edge of exactly their code; success is only returned after a reply that ends the exchange (or the end of the stream), never from the arm of an intermediate reply; nested client operations propagate. The reply streams of the eight exchanges the client runs end exactly at the specified final packets (protocol-monitor clauses shared with C05). Covers all 256 "
             "codes because no other code is inspected.", TB),
     "C09": ("other", "5.9",
             "path-sensitive product analysis (error flag x ghost failure bit x connection slot) of the retry coroutine; dominance chain in connect; who-may-call",
             "Reset on failure and keep on success are decided over all paths of into_stream_with_retry in product with the code's own "
             "error flag; reconnect happens only when the slot is empty and only connect's Ok value is stored; in connect every path to "
             "Ok passes registration (configured password/currency, items `?`-checked), system info and the equal edge of the "
-            "case-insensitive serial comparison; Sequence::into_stream is called nowhere else; the slot is private.", TB),
+            "case-insensitive serial comparison; Sequence::into_stream is called nowhere else; the slot is private. From the Err side of every test of a registration / system-info item neither the next exchange nor Ok is reachable.", TB),
     "C10": ("other", "5.10",
             "await-type analysis (generic argument of IntoFuture::into_future) + budget provenance + interval discharge of config arithmetic",
             "Every await point of the client is classified; raw transport awaits are accepted only inside a function whose every call "
@@ -103,7 +103,7 @@ CHECKS = {
     "C14": ("other", "5.14",
             "expression-equality rules on the framing code, suffix-contract verification on every decoder impl, unsafe-site facts, layout nesting rule",
             "The value decoder sees exactly &payload[..length]; the remainder is exactly &payload[length - r.len()..]; every decoder returns "
-            "a suffix of its input and no unsafe code exists in the library crates; no greedy row precedes another row; packet decoders delegate their framing to deserialize_tagged (shared with C03-c); the length comes from the prefix only.",
+            "a suffix of its input and no unsafe code exists in the library crates; no greedy row precedes another row; packet decoders delegate their framing to deserialize_tagged (shared with C03-c); the length comes from the prefix only. Where a decoder reads a length prefix itself, the announced length is used (compared or taken as a slice bound), not dropped.",
             "Non-interference of the bytes beyond the announced length follows from Rust's slice semantics once these hold. " + TB),
     "C04": ("other", "5.4",
             "who-may-call on the byte source, dominance/edge rules and prover-backed buffer-length equalities in read_packet, header-constant agreement across three sites",
